@@ -170,7 +170,21 @@ func PostMintBolt11(mintURL string, mintRequest nut04.PostMintBolt11Request) (
 	return &reqMintResponse, nil
 }
 
+// removeDLEQ returns a copy of the proofs without their DLEQ proofs.
+// The DLEQ proof of a proof (e, s and the blinding factor r) is only meant for
+// the receiver of a token. If it is sent to the mint, the mint can link
+// the proof being spent with the blind signature it issued.
+func removeDLEQ(proofs cashu.Proofs) cashu.Proofs {
+	proofsWithoutDLEQ := make(cashu.Proofs, len(proofs))
+	for i, proof := range proofs {
+		proof.DLEQ = nil
+		proofsWithoutDLEQ[i] = proof
+	}
+	return proofsWithoutDLEQ
+}
+
 func PostSwap(mintURL string, swapRequest nut03.PostSwapRequest) (*nut03.PostSwapResponse, error) {
+	swapRequest.Inputs = removeDLEQ(swapRequest.Inputs)
 	requestBody, err := json.Marshal(swapRequest)
 	if err != nil {
 		return nil, fmt.Errorf("json.Marshal: %v", err)
@@ -245,6 +259,7 @@ func GetMeltQuoteState(mintURL, quoteId string) (*nut05.PostMeltQuoteBolt11Respo
 func PostMeltBolt11(mintURL string, meltRequest nut05.PostMeltBolt11Request) (
 	*nut05.PostMeltQuoteBolt11Response, error) {
 
+	meltRequest.Inputs = removeDLEQ(meltRequest.Inputs)
 	requestBody, err := json.Marshal(meltRequest)
 	if err != nil {
 		return nil, fmt.Errorf("json.Marshal: %v", err)
